@@ -97,8 +97,8 @@ impl Prop for C05 {
                 .cap(tier.pick(120, 1500))
                 .hang(None)
                 .floor(tier.pick(2_000, 200_000)),
-            Lane::new("chaos", tier.pick(480, 16_000))
-                .cap(tier.pick(150, 1200))
+            Lane::new("chaos", tier.pick(480, 6_000))
+                .cap(tier.pick(150, 1500))
                 .hang(None)
                 .shards(8)
                 .floor(tier.pick(40, 3_000)),
@@ -112,7 +112,7 @@ impl Prop for C05 {
          exit; consumer before/after recv) per case, strategies random walk / PCT(d=1..3) / burst (two participants released at once) / \
          consumer-first / consumer-last / starve-one; distinct_interleavings = distinct grant \
          sequences (participant, point). lane chaos: free running, W in {0,1,2,3,4,8,16,64}, n up to \
-         3000 (thorough 20000), seeded delays at the points (yield / busy 1-60us / sleep <=1.5ms, \
+         3000 (thorough 8000), seeded delays at the points (yield / busy 1-60us / sleep <=1.5ms, \
          boosted in the window between send and turn advance), slow items, consumer pauses. Oracle in \
          both: output == [f(x0)..f(x_{n-1})] with f injective tags, every item processed exactly once \
          (per-item call counters), next() returns None after the n-th item and keeps returning None, \
@@ -176,7 +176,7 @@ impl Prop for C05 {
             let threads = *[0u8, 1, 2, 2, 3, 4, 4, 8, 16, 64]
                 .get(rng.random_range(0..10))
                 .unwrap();
-            let max_n = tier.pick(3000, 20_000);
+            let max_n = tier.pick(3000, 8_000);
             let n = match rng.random_range(0..10) {
                 0 => rng.random_range(0..=3),
                 1..=5 => rng.random_range(3..=60),
